@@ -108,6 +108,60 @@ def composite_programs(rng, n):
     return out
 
 
+def outputs_first_programs(rng, n):
+    """`if` statements whose branches modify BOTH a plain temporary that is read inside and dead afterwards (an input-only
+    state variable) AND an attribute / subscript of an object that is live and observed afterwards (always an output):
+    the shape on which "outputs occupy the first nouts positions" is observable through a contract-following if_stmt.
+    Everything is defined up front and every composite exists (so none of the known findings is touched); loop targets are
+    never assigned in a branch and never read after their loop (known liveness defect of `for`)."""
+    out = []
+    for k in range(n):
+        L = ['def f(a, b, c, l):', '    o = Obj(a)', '    o.w = b', "    dd = {'k': c, 0: a}", '    x = a', '    y = b']
+        nif = rng.randrange(1, 4)
+
+        def branch(ind, t):
+            comp = rng.choice(['o.v', 'o.w', "dd['k']", 'dd[0]', 'l[0]'])
+            L.append(ind + '%s = %s %s %s' % (t, t, rng.choice(['+', '-', '*']), rng.choice(['x', 'y', '2', 'a'])))
+            L.append(ind + '%s = %s' % (comp, rng.choice([t, '%s + 1' % t, '%s + %s' % (comp, t), 'x + %s' % t])))
+            if rng.random() < 0.4:
+                L.append(ind + '%s = %s + %s' % (rng.choice(['x', 'y']), rng.choice(['x', 'y']), t))
+            if rng.random() < 0.3:
+                c2 = rng.choice(['o.v', 'o.w', "dd['k']", 'dd[0]'])
+                L.append(ind + '%s = %s' % (c2, rng.choice(['y', t, '%s - 1' % t])))
+
+        for j in range(nif):
+            t = 't%d' % j
+            ind = '    '
+            L.append(ind + '%s = %s' % (t, rng.choice(['x + 1', 'a', 'y * 2', 'b - a'])))
+            form = rng.randrange(4)
+            if form == 1:
+                L += [ind + 'w%d = 0' % j, ind + 'while w%d < %d:' % (j, rng.randrange(1, 3)), ind + '    w%d += 1' % j]
+                ind += '    '
+            elif form == 2:
+                L.append(ind + 'for i%d in range(%s):' % (j, rng.choice(['2', 'a % 3', 'len(l)'])))
+                ind += '    '
+            elif form == 3:
+                L.append(ind + 'if %s:' % rng.choice(['c >= 0', 'a != b', 'd()']))
+                ind += '    '
+            L.append(ind + 'if %s:' % rng.choice(['a > 0', 'b > a', 'd()', 'x > y', 'c == 0']))
+            branch(ind + '    ', t)
+            m = rng.random()
+            if m < 0.3:
+                L.append(ind + 'elif %s:' % rng.choice(['b > 0', 'd()']))
+                branch(ind + '    ', t)
+            if m < 0.6:
+                L.append(ind + 'else:')
+                if rng.random() < 0.5:
+                    branch(ind + '    ', t)
+                else:
+                    L.append(ind + '    x = x + 1')
+        L.append('    return x, y, o.v, o.w, sorted((str(q), v) for q, v in dd.items()), list(l)')
+        inputs = [(1, 2, 3, [1, 2]), (0, 0, 0, [0]), (-1, 5, 0, [3]), (2, 1, -1, [4, 4])]
+        out.append(progen.Program(progen.RANDOM_PRELUDE + '\n'.join(L) + '\n', inputs, {'outputs_first', 'composite', 'if'},
+                                  'outputs_first', decisions=progen.decision_vectors(random.Random(rng.getrandbits(30)), 3)))
+    return out
+
+
 def expect_of_source(source):
     """Expectation table recomputed from a program text alone (replays / corpus)."""
     cut = source.rindex('\ndef f(') + 1
@@ -175,12 +229,16 @@ def final_tree_request(trace):
 
 
 class FunctionalIf(object):
-    """Focused search only: an `if_stmt` implementing the documented meaning of `nouts` -- after the selected branch ran,
+    """A contract-following `if_stmt` implementing the documented meaning of `nouts` -- after the selected branch ran,
     only the first `nouts` state entries keep their new value, the rest are put back to what they were before the
-    statement ("vars which are not outputs will not be passed through staged control flow")."""
+    statement ("vars which are not outputs will not be passed through staged control flow").  If outputs are the first
+    `nouts` entries the program computes what it computes natively.  Always used on the `outputs_first` program stream
+    (temporaries dead after the `if` + composite state of live objects, built to stay clear of the known liveness
+    defects of C06/C07); on other programs only as a focused search after an obligation broke."""
 
     def __init__(self, ags, undefined_cls):
         self.ags, self.saved, self.Undefined = ags, [], undefined_cls
+        self.restored = 0          # invocations in which some non-output entry changed by the branch was put back
 
     def __enter__(self):
         for ag in self.ags:
@@ -199,6 +257,8 @@ class FunctionalIf(object):
                     # back is the known finding missing_composite_written_back, not what is searched for here)
                     if isinstance(nouts, int) and len(final) == len(init) and \
                             not any(isinstance(v, self.Undefined) for v in tuple(init) + tuple(final)):
+                        if any(a is not b for a, b in zip(init[nouts:], final[nouts:])):
+                            self.restored += 1
                         set_state(tuple(final[:nouts]) + tuple(init[nouts:]))
                 except Exception:  # noqa
                     pass
@@ -269,13 +329,17 @@ def process_chunk(args):
                         res['runs'] += 1
                         if got != plain:
                             res['diverged'] += 1
-                        if focus:
-                            # model-independent semantic probe of `nouts`, used only to find a failing input after an obligation broke
+                        if focus or 'outputs_first' in prog.features:
+                            # model-independent semantic probe of `nouts` / "outputs first": always on the outputs_first stream,
+                            # elsewhere only to find a failing input after an obligation broke
                             # (original-vs-converted comparison is C01's oracle and is deliberately not repeated here)
                             case = {'recursive': rec, 'input': list(inp), 'decisions': list(dec)}
                             try:
-                                with FunctionalIf([a for a in (ag, gag) if a is not None], variables.Undefined):
+                                with FunctionalIf([a for a in (ag, gag) if a is not None], variables.Undefined) as fif:
                                     fun = progen.run_program(mod, tr.converted, inp, dec)
+                                res['counts']['functional_if_runs'] = res['counts'].get('functional_if_runs', 0) + 1
+                                res['counts']['functional_if_restored_nonoutputs'] = \
+                                    res['counts'].get('functional_if_restored_nonoutputs', 0) + fif.restored
                                 if fun != plain and not any(g['what'].startswith('outputs are not the first') for g in res['rt_failures']):
                                     res['rt_failures'].append(dict(case, what='outputs are not the first nouts state entries: an if_stmt that passes only '
                                                                    'the first nouts entries on changes the result', cls=None,
@@ -320,8 +384,9 @@ def gen_programs(run):
                                        rng=random.Random(rng.getrandbits(32)), info=info))
     rnd = list(progen.random_programs(random.Random(rng.getrandbits(32)), 200 if quick else 700, size=14))
     comp = composite_programs(random.Random(rng.getrandbits(32)), 60 if quick else 200)
+    ofp = outputs_first_programs(random.Random(rng.getrandbits(32)), 60 if quick else 250)
     out = []
-    for p in sk + rnd + comp:
+    for p in sk + rnd + comp + ofp:
         density = rng.choice([0.0, 0.5, 0.5, 1.0])
         try:
             q, e = with_directives(p, rng, density)
